@@ -31,20 +31,28 @@ def gen_bmk():
     Returns dict with what was produced (entry points per formula set, rejected ones)."""
     pt_fields, m_fields = [], []
     consts = {'Mp': 'c.Mp', 'Mp2': 'c.Mp2', 'alpha': 'c.alpha', 'GeV2nb': 'c.GeV2nb', 'pi': 'kpi'}
-    static = {"not hasattr(pt, 's')": False, "'t' in pt": True, "'phi' in pt": True,
+    static = {"hasattr(pt, 's')": True, "'t' in pt": True, "'phi' in pt": True,
               'cff.HybridCFF in self.__class__.mro()': False}
     kin = py2lean.Module(os.path.join(SRC, 'kinematics.py'))
     # requested entry points get a definition of their own; every other module function of kinematics.py, and every
     # method whose name starts with `_`, is a helper and is inlined where it is called (see py2lean.py)
     tk = py2lean.Translator(kin, consts=consts, static_conds=static, pt_fields=pt_fields, m_fields=m_fields, targets=KIN)
+    # Degradation is per entry point: a definition the translator rejects is left out TOGETHER WITH everything that
+    # refers to it — callers are rejected in turn ("call to …": a dropped kinematics function is not offered to bmk.py),
+    # aliases, dispatch entries, the XS assembly and the generated lemmas are emitted only for what exists — so that
+    # Gen/*.lean and the drivers always build and the checks report what is missing instead of crashing.
+    produced, rejected = {}, {}
     kin_names = {}
     for fn in KIN:
         if fn in kin.functions:
-            kin_names[fn] = tk.gen_func(kin.functions[fn])
+            try:
+                kin_names[fn] = tk.gen_func(kin.functions[fn])
+            except py2lean.Reject as ex:
+                rejected[('kinematics', fn)] = str(ex)
     bmk = py2lean.Module(os.path.join(SRC, 'bmk.py'))
     tb = py2lean.Translator(bmk, consts=consts, static_conds=static, pt_fields=pt_fields, m_fields=m_fields,
-                            module_funcs={k: (v[0], None) for k, v in kin_names.items()}, targets=ENTRY)
-    produced, rejected = {}, {}
+                            module_funcs={k: (v[0], [a.arg for a in kin.functions[k].args.args]) for k, v in kin_names.items()},
+                            targets=ENTRY)
     for cls in FORMULA_SETS:
         produced[cls] = {}
         for e in ENTRY:
@@ -60,7 +68,10 @@ def gen_bmk():
     td = py2lean.Translator(dv, consts=consts, static_conds=static, pt_fields=pt_fields, m_fields=m_fields, targets=DVCS_ENTRY)
     dv_names = {}
     for e in DVCS_ENTRY:
-        dv_names[e] = td.gen_method('DVCS', e)
+        try:
+            dv_names[e] = td.gen_method('DVCS', e)
+        except py2lean.Reject as ex:
+            rejected[('DVCS', e)] = str(ex)
     # every field the formulas read, plus those prepare() writes
     for f in ['xB', 'Q2', 't', 'W', 's', 'phi', 'varphi', 'in1polarization', 'in1charge']:
         if f not in pt_fields:
@@ -70,6 +81,11 @@ def gen_bmk():
     body += struct('Consts', ['Mp', 'Mp2', 'alpha', 'GeV2nb'])
     body += struct('Pt', [safe(f) for f in pt_fields])
     body += struct('CFFs', m_fields)
+    # all-zero records: witnesses in proofs are written `{ Pt.zero with xB := 1/2, … }`, by field NAME, so that neither
+    # the order in which the translator meets the fields nor a new field (a value cached on the point) matters
+    body += '/-- every field 0 (base of concrete witnesses: `{ Pt.zero with Q2 := 4, … }`) -/\n'
+    body += 'def Pt.zero : Pt := ⟨%s⟩\n' % ', '.join(['0'] * len(pt_fields))
+    body += 'def CFFs.zero : CFFs := ⟨%s⟩\n\n' % ', '.join(['0'] * len(m_fields))
     body += '\n'.join(tk.defs) + '\n' + '\n'.join(tb.defs) + '\n' + '\n'.join(td.defs) + '\n'
     # stable aliases  <Set>.<entry>'  for the entry points of every formula set
     body += '/-! entry points per formula set -/\n'
@@ -83,14 +99,19 @@ def gen_bmk():
     xs_missing = []
     for cls in FORMULA_SETS:
         have = produced[cls]
-        if not all(e in have for e in ('TBH2unp', 'TINTunp', 'TDVCS2unp')):
+        UNP, LP, TP = ('TBH2unp', 'TINTunp', 'TDVCS2unp'), ('TBH2LP', 'TINTLP', 'TDVCS2LP'), ('TBH2TP', 'TINTTP', 'TDVCS2TP')
+
+        def lost(group):
+            # a term the class HAS (it resolves) but the translator rejected: the assembly cannot be modelled
+            return any((cls, e) in rejected and rejected[(cls, e)] != 'raise' for e in group)
+        if not all(e in have for e in UNP) or lost(LP) or lost(TP) or 'weight_BH' not in kin_names or 'PreFacSigma' not in dv_names:
             # the translator rejected a term this set needs: no XS model for it (the checks fall back
             # to the behavioural streams and report what no longer translates)
             xs_missing.append(cls)
             continue
-        unp = ' + '.join('FS_%s_%s c m pt' % (cls, e) for e in ('TBH2unp', 'TINTunp', 'TDVCS2unp'))
-        lp = ' + '.join('FS_%s_%s c m pt' % (cls, e) for e in ('TBH2LP', 'TINTLP', 'TDVCS2LP')) if 'TBH2LP' in have else None
-        tp = ' + '.join('FS_%s_%s c m pt' % (cls, e) for e in ('TBH2TP', 'TINTTP', 'TDVCS2TP')) if 'TBH2TP' in have else None
+        unp = ' + '.join('FS_%s_%s c m pt' % (cls, e) for e in UNP)
+        lp = ' + '.join('FS_%s_%s c m pt' % (cls, e) for e in LP) if all(e in have for e in LP) else None
+        tp = ' + '.join('FS_%s_%s c m pt' % (cls, e) for e in TP) if all(e in have for e in TP) else None
         body += 'def XSaux_%s (c : Consts) (m : CFFs) (pt : Pt) (target : Nat) (in2pol : K) : Option K :=\n' % cls
         body += '  let aux : K := %s\n' % unp
         body += '  match target with\n  | 0 => some aux\n'
@@ -110,6 +131,11 @@ def gen_bmk():
     d += 'def ptOfList : List Float → Option Pt\n  | [%s] => some ⟨%s⟩\n  | _ => none\n\n' % (
         ', '.join('a%d' % i for i in range(len(pt_fields))), ', '.join('a%d' % i for i in range(len(pt_fields))))
     d += 'def listOfPt (p : Pt) : List Float := [%s]\n\n' % ', '.join('p.' + safe(f) for f in pt_fields)
+    d += '/-- number of fields of `CFFs` / `Pt` (the drivers split their argument lists with these) -/\n'
+    d += 'def nCFFs : Nat := %d\ndef nPt : Nat := %d\n\n' % (len(m_fields), len(pt_fields))
+    d += '/-- kinematics.prepare, `none` when the translator rejected it -/\n'
+    d += 'def prepareEval (c : Consts) (pt : Pt) : Option Pt := %s\n\n' % (
+        'some (%s c pt)' % kin_names['prepare'][0] if kin_names.get('prepare', (None, None))[1] == 'Pt' else 'none')
     d += 'def bmkEval (set entry : String) (c : Consts) (m : CFFs) (pt : Pt) : Option Float :=\n  match set, entry with\n'
     for cls in FORMULA_SETS:
         for e, (lname, typ) in produced[cls].items():
